@@ -16,6 +16,7 @@ type vpRT struct {
 	B   []bool         `nbt:"b"`
 	I8  []int8         `nbt:"i8"`
 	Raw RawMessage     `nbt:"raw"`
+	Raws []RawMessage  `nbt:"raws"`
 	F   float64        `nbt:"f"`
 	vpEmb
 }
@@ -47,6 +48,7 @@ func VP_C02_roundtrip() {
 	v.B = []bool{vp.Bool(), vp.Bool()}[:k]
 	v.I8 = []int8{vp.Int8(), vp.Int8()}[:k]
 	v.Raw = RawMessage{Type: TagShort, Data: vp.Bytes(2)}
+	v.Raws = []RawMessage{{Type: TagByte, Data: vp.Bytes(1)}, {Type: TagByte, Data: vp.Bytes(1)}}[:k]
 	v.F = math.Float64frombits(vp.Uint64())
 	v.E = vp.Int16()
 	network := vp.Bool()
@@ -99,6 +101,10 @@ func VP_C02_roundtrip() {
 		vp.Assert(got.S[i] == v.S[i] && got.B[i] == v.B[i] && got.I8[i] == v.I8[i], L+" (slice elements)")
 	}
 	vp.Assert(got.Raw.Type == TagShort && len(got.Raw.Data) == 2 && got.Raw.Data[0] == v.Raw.Data[0] && got.Raw.Data[1] == v.Raw.Data[1], L+" (RawMessage field)")
+	vp.Assert(len(got.Raws) == k, L+" (list of RawMessage)")
+	for i := 0; i < k && i < len(got.Raws); i++ {
+		vp.Assert(got.Raws[i].Type == TagByte && len(got.Raws[i].Data) == 1 && got.Raws[i].Data[0] == v.Raws[i].Data[0], L+" (list of RawMessage)")
+	}
 	vp.Assert(math.Float64bits(got.F) == math.Float64bits(v.F), L+" (float64 bit pattern)")
 	vp.Assert(got.E == v.E, L+" (embedded field)")
 	vp.Cover("end")
